@@ -1049,6 +1049,10 @@ def mk_field(t, name, idx):
     if t[0] == "dc" and t[2] == "Continue" and t[1][0] == "call" and t[1][1] == "core::ops::try_trait::Try::branch":
         # `x?` on Option/Result: the Continue payload is the Some/Ok payload
         return ("field", ("dc", t[1][3][0], "Some"), "0")
+    if t[0] == "mem" and t[3] is not None and t[3][0] != "faddr_whole":
+        # component of an element loaded as a whole through a pointer: same canonical form as the
+        # direct load of that component, (*p).k
+        return ("mem", t[1] + "." + str(name), t[2], ("faddr", t[3], str(name)))
     if t[0] == "bin" and t[1].endswith("WithOverflow"):
         if idx == 0:
             return mk_bin(t[1][:-len("WithOverflow")], t[2], t[3])
